@@ -35,7 +35,7 @@ def design_runs(ctx: Ctx, cfgs: list[str], expect_violation: tuple[str, ...] = (
     from harness import tlc
 
     def one(cfg):
-        return tlc.run_tlc("TypeSystem", cfg, workdir=ctx.work / f"d-{cfg}", workers=4, timeout=1500)
+        return tlc.run_tlc("TypeSystem", cfg, workdir=ctx.work / f"d-{cfg}", workers=4, timeout=6000)
 
     with ThreadPoolExecutor(max_workers=len(cfgs)) as ex:
         results = dict(zip(cfgs, ex.map(one, cfgs)))
@@ -66,22 +66,22 @@ def hierarchy_cases(ctx: Ctx) -> list[dict]:
     rng = ctx.rng("cases")
     jobs = []
     if ctx.quick:
-        cases = ctx.behaviours("MC_TypeSystem", "MC_TypeSystem_quick.cfg")
+        cases = ctx.behaviours("MC_TypeSystem", "MC_TypeSystem_quick.cfg", timeout=3000)
         ctx.notes["hierarchies_exhaustive_3_classes"] = len(cases)
         jobs += [(c, 6) for c in cases]
         n_sim = 8
     else:
-        cases = ctx.behaviours("MC_TypeSystem", "MC_TypeSystem.cfg")
+        cases = ctx.behaviours("MC_TypeSystem", "MC_TypeSystem.cfg", timeout=3000)
         ctx.notes["hierarchies_exhaustive_3_classes"] = len(cases)
         jobs += [(c, 12) for c in cases]
-        four = ctx.behaviours("MC_TypeSystem", "MC_TypeSystem_n4.cfg")
+        four = ctx.behaviours("MC_TypeSystem", "MC_TypeSystem_n4.cfg", timeout=3000)
         ctx.notes["hierarchies_enumerated_4_classes"] = len(four)
         four.sort(key=lambda c: str(c["hier"]))
-        pick = rng.sample(four, min(80, len(four)))
+        pick = rng.sample(four, min(150, len(four)))
         ctx.notes["hierarchies_sampled_4_classes"] = len(pick)
         jobs += [(c, 12) for c in pick]
-        n_sim = 60
-    sims = ctx.simulate("MC_TypeSystem", "MC_TypeSystem_sim.cfg", num=n_sim, depth=8)
+        n_sim = 100
+    sims = ctx.simulate("MC_TypeSystem", "MC_TypeSystem_sim.cfg", num=n_sim, depth=8, timeout=3000)
     import json
     seen = set()
     for st in sims:
@@ -212,7 +212,7 @@ def signature(ev: dict, clause: str) -> tuple[str, str]:
 def judge(ctx: Ctx, traces: list[dict], behs: list[dict], cfg: str, sig) -> None:
     n = len(traces)
     chunk = max(8, -(-n // 3))
-    verdicts = ctx.validate("TypeSystemTrace", traces, cfg=cfg, chunk=chunk, workers=4)
+    verdicts = ctx.validate("TypeSystemTrace", traces, cfg=cfg, chunk=chunk, workers=4, timeout=6000)
     for idx, bad in sorted(verdicts.items()):
         ev = traces[idx]["ev"][0]
         for clause, _step in bad:
